@@ -23,8 +23,8 @@ radii, each with its custom distance, ascending, ties in candidate order; with a
 neighbour instead of a closer one.  Anything else is refused; on refusal the committed snapshot is written and the refusal recorded."""
 import ast, os, traceback
 
-NAME = 'nn._cal_custom_dist[source]'
-PROPS = ['C11', 'C14']
+NAME = 'nn._cal_custom_dist / _cal_levenshtein[source]'
+PROPS = ['C04', 'C07', 'C11', 'C14']
 U = ast.unparse
 ROLES = ['seqs', 'max_edits', 'limit', 'dist', 'max_cust_dist']
 
@@ -131,6 +131,70 @@ def translate(tree):
     return test
 
 
+def translate_lev(tree):
+    """_cal_levenshtein(_args):
+          i, y_indices = _args
+          seqs, max_edits, limit, custom_distance, _ = _cal_params
+          scorer = hamming if custom_distance == 'hamming' else levenshtein
+          choices = list(filter(lambda y: y != i, y_indices))
+          result = extract(seqs[i], seqs[choices], score_cutoff=max_edits, scorer=scorer, limit=limit)
+          ans = []
+          for _, dist, y_index in result: ans.append((i, choices[y_index], dist))
+          return ans"""
+    fns = {n.name: n for n in tree.body if isinstance(n, ast.FunctionDef)}
+    imports = {U(n) for n in tree.body if isinstance(n, (ast.Import, ast.ImportFrom))}
+    for need in ('from rapidfuzz.distance.Levenshtein import distance as levenshtein', 'from rapidfuzz.distance.Hamming import distance as hamming',
+                 'from rapidfuzz.process import extract'):
+        if need not in imports:
+            raise Refuse('nn.py: `%s` expected' % need)
+    if '_cal_levenshtein' not in fns:
+        raise Refuse('function _cal_levenshtein not found')
+    fn = fns['_cal_levenshtein']
+    b = [s_ for s_ in body_of(fn) if not isinstance(s_, ast.Pass)]
+    if [a.arg for a in fn.args.args] != ['_args'] or len(b) != 8:
+        raise Refuse('_cal_levenshtein: expected 8 statements, got %d' % len(b))
+    s_args, s_par, s_sc, s_ch, s_res, s_init, s_loop, s_ret = b
+    if U(s_args) not in ('(i, y_indices) = _args', 'i, y_indices = _args'):
+        raise Refuse('_cal_levenshtein: `i, y_indices = _args` expected')
+    if not (isinstance(s_par, ast.Assign) and U(s_par.value) == '_cal_params' and isinstance(s_par.targets[0], ast.Tuple)
+            and len(s_par.targets[0].elts) == 5 and all(isinstance(e, ast.Name) for e in s_par.targets[0].elts)):
+        raise Refuse('_cal_levenshtein: the five parameters are not unpacked from _cal_params')
+    nm = dict(zip(ROLES, [e.id for e in s_par.targets[0].elts]))
+    if len({nm[r] for r in ROLES[:4]}) != 4:
+        raise Refuse('_cal_levenshtein: parameter names clash')
+    cd = nm['dist']
+    sc = U(s_sc)
+    if sc in ("scorer = hamming if %s == 'hamming' else levenshtein" % cd, "scorer = levenshtein if %s != 'hamming' else hamming" % cd):
+        pass
+    else:
+        raise Refuse('_cal_levenshtein: scorer is not hamming in Hamming mode and levenshtein otherwise: %s' % sc[:100])
+    ok = False
+    v = s_ch.value if isinstance(s_ch, ast.Assign) and U(s_ch.targets[0]) == 'choices' else None
+    if isinstance(v, ast.Call) and U(v.func) == 'list' and len(v.args) == 1 and isinstance(v.args[0], ast.Call) and U(v.args[0].func) == 'filter' \
+            and len(v.args[0].args) == 2 and isinstance(v.args[0].args[0], ast.Lambda) and U(v.args[0].args[1]) == 'y_indices' \
+            and len(v.args[0].args[0].args.args) == 1:
+        a = v.args[0].args[0].args.args[0].arg
+        ok = U(v.args[0].args[0].body) in ('%s != i' % a, 'i != %s' % a)
+    elif isinstance(v, ast.ListComp) and len(v.generators) == 1 and U(v.generators[0].iter) == 'y_indices' and len(v.generators[0].ifs) == 1 \
+            and isinstance(v.generators[0].target, ast.Name) and U(v.elt) == v.generators[0].target.id:
+        a = v.generators[0].target.id
+        ok = U(v.generators[0].ifs[0]) in ('%s != i' % a, 'i != %s' % a)
+    if not ok:
+        raise Refuse('_cal_levenshtein: the query is not removed from its candidates by `y != i`: %s' % U(s_ch)[:80])
+    r = s_res.value if isinstance(s_res, ast.Assign) and U(s_res.targets[0]) == 'result' else None
+    if not (isinstance(r, ast.Call) and U(r.func) == 'extract' and [U(a_) for a_ in r.args] == ['%s[i]' % nm['seqs'], '%s[choices]' % nm['seqs']]
+            and {k.arg: U(k.value) for k in r.keywords} == dict(score_cutoff=nm['max_edits'], scorer='scorer', limit=nm['limit'])):
+        raise Refuse('_cal_levenshtein: result is not extract(seqs[i], seqs[choices], score_cutoff=max_edits, scorer=scorer, limit=limit): %s' % U(s_res)[:120])
+    if U(s_init) != 'ans = []' or U(s_ret) != 'return ans':
+        raise Refuse('_cal_levenshtein: the result list is not built in `ans`')
+    if not (isinstance(s_loop, ast.For) and not s_loop.orelse and U(s_loop.iter) == 'result' and isinstance(s_loop.target, ast.Tuple)
+            and len(s_loop.target.elts) == 3 and all(isinstance(e, ast.Name) for e in s_loop.target.elts) and len(s_loop.body) == 1):
+        raise Refuse('_cal_levenshtein: loop is not `for _, dist, y_index in result`')
+    _c, d_, y_ = [e.id for e in s_loop.target.elts]
+    if U(s_loop.body[0]) != 'ans.append((i, choices[%s], %s))' % (y_, d_):
+        raise Refuse('_cal_levenshtein: the triplet is not (i, choices[index], score): %s' % U(s_loop.body[0])[:80])
+
+
 TEMPLATE = '''Section GenKdRow.
 Context {D : Type}.
 Variable leD : D -> D -> bool.                 (* x <= y on custom distances *)
@@ -149,16 +213,26 @@ Definition gen_cal_custom_dist (seqs : list str) (max_edits : nat) (limit : opti
   let ans := py_sorted leD (fun x_ : nat * nat * D => snd x_) (filter (gen_distance_filter seqs max_edits max_cust_dist query) ans) in
   match limit with None => ans | Some m_ => firstn m_ ans end.
 End GenKdRow.
+
+(* _cal_levenshtein: default and Hamming mode; `hamming` / `levenshtein` are rapidfuzz's distances, `extract` the vocabulary rf_extract *)
+Definition gen_cal_levenshtein (hamming levenshtein : str -> str -> nat) (seqs : list str) (max_edits : nat) (limit : option nat)
+  (is_hamming : bool) (i : nat) (y_indices : list nat) : list (nat * nat * nat) :=
+  let scorer := if is_hamming then hamming else levenshtein in
+  let choices := filter (fun y_ => negb (Nat.eqb y_ i)) y_indices in
+  let result := rf_extract scorer (nth i seqs []) (map (fun c_ => nth c_ seqs []) choices) max_edits limit in
+  fold_left (fun ans r_ => ans ++ [(i, nth (snd r_) choices 0, snd (fst r_))]) result [].
 '''
 SNAP = '((leD (snd x_) max_cust_dist) && (Nat.leb edit_distance_ max_edits))'
 
 
 def run(STATUS, write_if_changed, ROOT, REPO):
     head = ['(* GENERATED from pyrepseq/nn.py (_cal_custom_dist, the parameter tuple of _to_triplets) by translate/regen_c11b.py on every check; do not edit. *)',
-            'From Coq Require Import List Arith Bool.', 'From PV Require Import lib.Str lib.PySorted.', 'Import ListNotations.', '']
+            'From Coq Require Import List Arith Bool.', 'From PV Require Import lib.Str lib.PyDict lib.PySorted.', 'Import ListNotations.', '']
     try:
         tree = ast.parse(open(os.path.join(REPO, 'pyrepseq', 'nn.py')).read())
-        txt = TEMPLATE % translate(tree)
+        test = translate(tree)
+        translate_lev(tree)
+        txt = TEMPLATE % test
         STATUS[NAME] = dict(ok=True, properties=PROPS, error=None)
     except Refuse as e:
         txt = '(* translator refused: %s -- committed snapshot of the last good text *)\n' % str(e).replace('*)', '* )') + TEMPLATE % SNAP
